@@ -384,6 +384,11 @@ func ReplayFileInto[C any](t *testing.T, c *Collector, path string, exec func(C)
 // Direct records a case executed outside rapid (enumerations, regress cases,
 // concurrency rounds). It fails the test on a violation.
 func Direct[C any](t *testing.T, c *Collector, cs C, r Result) bool {
+	c.mu.Lock()
+	if c.test == "" {
+		c.test = t.Name()
+	}
+	c.mu.Unlock()
 	if v := c.Observe(cs, r); v != nil {
 		t.Errorf("VIOLATION-DETAIL property=%s signature=%s: %s", c.Property, v.Signature, v.Message)
 		return false
